@@ -765,3 +765,44 @@ func genManyAllocs(g *Kern, r *Rng, tier string) {
 		g.st.Branches["goref-allocs-"+st]++
 	}
 }
+
+// genZeroValue: the zero value `signal.Buffer[T]{}` as an operand. It has no channels: appending or converting
+// between it and a buffer WITH channels is a shape mismatch and panics before anything is modified (C15); with other
+// zero-channel or zero-value buffers it is inert, and nothing panics (C20).
+func genZeroValue(w *World, r *Rng, tier string, tag string) {
+	reps := 4
+	if tier == "thorough" {
+		reps = 30
+	}
+	for rep := 0; rep < reps; rep++ {
+		k, k2 := r.Kind(), r.Kind()
+		ch := r.Range(1, 3)
+		w.Case(fmt.Sprintf("%s zero-value %s %s ch%d", tag, k, k2, ch))
+		z := w.ZeroValue(k)
+		z2 := w.ZeroValue(k2)
+		zc := w.Alloc(k, false, 0, r.Range(0, 2), r.Range(2, 3)) // zero channels through Alloc
+		full := w.Alloc(k, false, ch, 2, 3)
+		fillAll(w, full, rep)
+		other := w.Alloc(k2, false, ch, 2, 2)
+		fillAll(w, other, rep+7)
+		// inert among themselves
+		w.Append(z, zc)
+		w.Append(zc, z)
+		w.Append(z, z)
+		w.AppendSample(z, mixVal(r, k))
+		w.Conv(z, z2)
+		w.Conv(z2, z)
+		w.Conv(zc, z2)
+		w.Write(z, k, mixVals(r, k, 3))
+		w.Read(z, k, mixVals(r, k, 3))
+		w.WriteStriped(z, k, [][]uint64{})
+		w.ReadStriped(z, k, [][]uint64{})
+		w.Slice(z, 0, 0)
+		// shape mismatches with buffers that have channels
+		w.Append(full, z)
+		w.Append(z, full)
+		w.Conv(z2, full)
+		w.Conv(other, z)
+		w.Conv(z, other)
+	}
+}
